@@ -142,7 +142,8 @@ From Coq Require Import ZArith NArith. (* consts *)
 From FG Require ConstTie.
 From FG Require TimeCtl.
 Theorem C13_model_constants_dumped :
-  Z.of_nat TimeCtl.MaxDepth = c_max_depth.
+  Z.of_nat TimeCtl.MaxDepth = c_max_depth /\ TimeCtl.GamePhaseMax = c_game_phase_max /\
+  (forall m : N, TimeCtl.move_of m = N.land m c_move_mask).
 Proof. exact ConstTie.timectl_constants_dumped. Qed.
 
 (* tie to the source: every statement pattern the model transcribes and that no hook can feed from outside is still
